@@ -202,10 +202,11 @@ impl<T> DataReaderEntity<T> {
             let view_state = instance.view_state;
             let instance_state = instance.instance_state;
 
+            // Difference between the current generation of the instance and the generation of the sample
             let absolute_generation_rank = (instance.most_recent_disposed_generation_count
                 + instance.most_recent_no_writers_generation_count)
-                - (instance_from_collection.most_recent_disposed_generation_count
-                    + instance_from_collection.most_recent_no_writers_generation_count);
+                - (cache_change.disposed_generation_count
+                    + cache_change.no_writers_generation_count);
 
             let (data, valid_data) = match cache_change.kind {
                 ChangeKind::Alive | ChangeKind::AliveFiltered => {
